@@ -4,7 +4,9 @@
     proofs in Masked/*Proofs.v, non-vacuity examples in Masked/Examples.v, Masked/SaemExamples.v. *)
 From Coq Require Import List NArith ZArith Bool Arith QArith.
 From Leaspy Require Import Base.Atoms Masked.Weighted Masked.Observed Masked.Pipeline
-     Masked.WeightedProofs Masked.ClosedProofs Masked.PipelineProofs Masked.Saem Masked.SaemProofs.
+     Masked.WeightedProofs Masked.ClosedProofs Masked.PipelineProofs Masked.Saem Masked.SaemProofs
+     Masked.Source Masked.SourceProofs Masked.SourceTie Masked.NoiseStd Masked.NoiseStdProofs Masked.NoiseStdTie Masked.SourceExamples.
+From LeaspyGen Require Import GenC06.
 Import ListNotations.
 Local Close Scope Q_scope.
 Local Open Scope nat_scope.
@@ -160,3 +162,123 @@ Theorem C06_noise_saem_no_memory : forall y m0,
     noise_var_diagonal_saem y m0 [] = noise_var_diagonal y m0.
 Proof. exact noise_var_saem_nil. Qed.
 Print Assumptions C06_noise_saem_no_memory.
+
+(* ------------------------------------------------------------------ source-level tie (T1): the REGENERATED function bodies *)
+
+(** coq/gen/GenC06.v is rewritten from the current python source on every run (harness/translate/c06_weighted.py).
+    The binary dispatch as translated — the case table on (b weighted?, a.weight None?, b.weight None?, weights equal?,
+    reverse?) with the operand order of the value, the operand whose weight is kept, the expansion to the result shape
+    and the refusal — computes exactly [apply_operation], for all operands, operators and both orders. *)
+Theorem C06_src_apply_operation : forall op a b rev,
+    call op src_apply_operation [VWT a; sval_of_operand b; VOpName; VBool rev]
+    = of_res (rmap VWT (apply_operation a b op rev)).
+Proof. exact gen_apply_operation. Qed.
+Print Assumptions C06_src_apply_operation.
+
+(** filled, weighted_value, wsum (fill with 0 BEFORE weighting, weighting before summing, fill of empty aggregates AFTER
+    summing), sum, get_filled_value_and_weight as translated = the model's functions. *)
+Theorem C06_src_readings : tie_readings.
+Proof. exact gen_tie_readings. Qed.
+Print Assumptions C06_src_readings.
+
+(** valued, map, map_both, index_put, view, expand as translated: which of (value, weight) goes through the function. *)
+Theorem C06_src_maps : tie_maps.
+Proof. exact gen_tie_maps. Qed.
+Print Assumptions C06_src_maps.
+
+(** _get_dim, sum_dim, wsum_dim and its two projections, unsqueeze_right as translated. *)
+Theorem C06_src_utils : tie_utils.
+Proof. exact gen_tie_utils. Qed.
+Print Assumptions C06_src_utils.
+
+(** default arguments and the dunder -> (operator, reverse) table as translated = what the model / the T2 harness assume. *)
+Theorem C06_src_signatures : tie_signatures.
+Proof. exact gen_tie_signatures. Qed.
+Print Assumptions C06_src_signatures.
+
+(** C06 over the translated source: for every tree of operations and every masked reading, both EXECUTED through the
+    regenerated bodies: leaves that agree on observed positions (anything under weight 0) give the same error or the same
+    tensors read. *)
+Theorem C06_src_tree_ignores_masked : forall e q env1 env2,
+    (forall i, ragree oagree (env1 i) (env2 i)) ->
+    ragree reading_agree (run_with gen_impl env1 e q) (run_with gen_impl env2 e q).
+Proof. exact gen_run_ignores_masked. Qed.
+Print Assumptions C06_src_tree_ignores_masked.
+
+Theorem C06_src_observed_closed : forall e env1 env2,
+    (forall i, ragree oagree (env1 i) (env2 i)) ->
+    ragree oagree (eval_with gen_impl env1 e) (eval_with gen_impl env2 e).
+Proof. exact gen_eval_agree. Qed.
+Print Assumptions C06_src_observed_closed.
+
+(** compute_std_from_variance as translated: LeaspyConvergenceError exactly when some entry is < tol (IEEE comparison);
+    otherwise the square root of the very tensor handed in; nothing else can happen. *)
+Theorem C06_src_std_guard : forall tol v,
+    (gen_std tol v = SExc exc_convergence <-> exists x, In x (to_flat v) /\ alt x tol = true) /\
+    (forall r, gen_std tol v = SOk r -> r = VSqrtOf v /\ forall x, In x (to_flat v) -> alt x tol = false) /\
+    (gen_std tol v = SExc exc_convergence \/ gen_std tol v = SOk (VSqrtOf v)).
+Proof. exact gen_std_spec. Qed.
+Print Assumptions C06_src_std_guard.
+
+(** with a finite tol >= 0 every accepted entry that is not NaN is >= tol and has a square root
+    (no square root of a negative number, of -inf, of a variance below the tolerance) *)
+Theorem C06_src_std_sqrt_defined : forall q v r,
+    (0 <= q)%Q -> gen_std (Fin q) v = SOk r ->
+    r = VSqrtOf v /\ forall x, In x (to_flat v) -> is_nan x = false -> ale (Fin q) x = true /\ sqrt_defined x.
+Proof. exact gen_std_sqrt_defined. Qed.
+Print Assumptions C06_src_std_sqrt_defined.
+
+(** "never NaN" does NOT hold without the hypothesis [is_nan x = false]: the guard is a comparison and comparisons with
+    NaN are false, so a NaN variance is accepted (and its square root is NaN) — the code behaves the same (T2). *)
+Theorem C06_src_std_nan_not_refused : forall tol, exists v, gen_std tol v = SOk (VSqrtOf v) /\ In NaN (to_flat v).
+Proof. exact gen_std_nan_not_refused. Qed.
+Print Assumptions C06_src_std_nan_not_refused.
+
+(** neg, abs, pow (value transformed, weight kept) and the function returned by factory_weighted_tensor_unary_operator
+    (on a WeightedTensor: f on filled(fill_value), weights kept; on a plain tensor: f) as translated. *)
+Theorem C06_src_unary : tie_unary.
+Proof. exact gen_tie_unary. Qed.
+Print Assumptions C06_src_unary.
+
+(** The noise estimate finally ADOPTED — the variance of either update rule handed to compute_std_from_variance with any
+    tolerance — uses observed entries only: under the hypotheses of C06_noise_observed_only both runs are refused
+    (LeaspyConvergenceError) together or adopt the square root of equal variances ... *)
+Theorem C06_noise_std_observed_only : forall tol y y' model model',
+    wagree y y' ->
+    shape model = shape (value y) -> shape model' = shape model ->
+    (forall m, inr (shape model) m -> observed y m -> at_ model m = at_ model' m) ->
+    ragree std_agree (noise_std_scalar tol y model) (noise_std_scalar tol y' model') /\
+    ragree std_agree (noise_std_diagonal tol y model) (noise_std_diagonal tol y' model').
+Proof. exact noise_std_observed_only. Qed.
+Print Assumptions C06_noise_std_observed_only.
+
+(** ... and the same after burn-in (statistics averaged by the memory phase), for every number of iterations. *)
+Theorem C06_noise_std_observed_only_after_burn_in : forall tol y y' m0 m0' steps steps',
+    wagree y y' -> magree y m0 m0' -> steps_agree y steps steps' ->
+    ragree std_agree (noise_std_scalar_saem tol y m0 steps) (noise_std_scalar_saem tol y' m0' steps') /\
+    ragree std_agree (noise_std_diagonal_saem tol y m0 steps) (noise_std_diagonal_saem tol y' m0' steps').
+Proof. exact noise_std_saem_observed_only. Qed.
+Print Assumptions C06_noise_std_observed_only_after_burn_in.
+
+(** The two noise update rules of _gaussian.py AS TRANSLATED from the current source compute [noise_rule]: on any state
+    statistics (y_L2, n_obs | y_L2_per_ft, n_obs_per_ft) and any collected statistics,
+    compute_std_from_variance((y_l2 + sum_dim(-2 * y_x_model + model_x_model[, but_dim=LVL_FT])) / n_obs.float(), tol=1e-5). *)
+Theorem C06_src_noise_rules : tie_noise_rules.
+Proof. exact gen_tie_noise_rules. Qed.
+Print Assumptions C06_src_noise_rules.
+
+(** ... and the adopted estimates of C06_noise_std_observed_only(_after_burn_in) ARE that rule body applied to the state
+    statistics of y and to the collected (resp. averaged) statistics. *)
+Theorem C06_noise_std_is_rule : forall tol y model,
+    noise_std_scalar tol y model = bind (y_L2_n_obs y) (fun p => bind (collect y model) (noise_rule DimDefault tol p)) /\
+    noise_std_diagonal tol y model = bind (y_L2_n_obs_per_ft y) (fun p => bind (collect y model) (noise_rule (ButDim [LVL_FT]) tol p)).
+Proof. exact noise_std_is_rule. Qed.
+Print Assumptions C06_noise_std_is_rule.
+
+Theorem C06_noise_std_saem_is_rule : forall tol y m0 steps,
+    noise_std_scalar_saem tol y m0 steps
+    = bind (y_L2_n_obs y) (fun p => bind (saem_stats y m0 steps) (noise_rule DimDefault tol p)) /\
+    noise_std_diagonal_saem tol y m0 steps
+    = bind (y_L2_n_obs_per_ft y) (fun p => bind (saem_stats y m0 steps) (noise_rule (ButDim [LVL_FT]) tol p)).
+Proof. exact noise_std_saem_is_rule. Qed.
+Print Assumptions C06_noise_std_saem_is_rule.
